@@ -281,12 +281,132 @@ def _has(obj, name):
 
 # ----------------------------------------------------------------------------- ladders (G6)
 
+def loop_ladder(ctx, world, ev, m, forms, f, extra, site):
+    """Iterative double-and-add, left to right: acc = identity; for each binary digit of n, most
+    significant first: acc = 2*acc (+ P when the digit is 1).  One symbolic iteration with the
+    accumulator an arbitrary multiple k*P shows every way round the loop maps k to 2k or 2k+1
+    according to the digit (Horner step); with the digits being those of n the result is n*P."""
+    label = f.qual + ("[%s]" % ", ".join(x.node.name for x in extra) if extra else "")
+    e2 = Ev(world, loop_mode="once")
+    e2.import_all()
+    e2.policy.force_inline.add(f.qual)
+    pt = TupleV([Sym(c, "int") for c in ("PX", "PY", "PZ", "PT")])
+    n = Sym("n", "int")
+    outs = e2.run(f, [pt, n] + list(extra), [], world.static.fork())
+    rets = session.rets(outs)
+    entries = [c for (_, c) in e2.loop_entries]
+    okshape = len(entries) == 1 and len(entries[0]) == 1
+    acc_name = list(entries[0])[0] if okshape else None
+    ctx.ob("G6", label + " accumulator", okshape, "one loop with one carried local (the accumulator %s)" % acc_name if okshape else
+           "the loop carries %s: not a single-accumulator double-and-add" % [sorted(c) for c in entries], site)
+    if not okshape:
+        return
+    acc0 = entries[0][acc_name]
+
+    def is_identity(v):
+        return isinstance(v, TupleV) and len(v.items) == 4 and v.items[0] == Const(0) and v.items[3] == Const(0) \
+            and v.items[1] == v.items[2] and isinstance(v.items[1], Const) and v.items[1].v % (2 ** 255 - 19) != 0
+    ctx.ob("G6", label + " start", is_identity(acc0), "the accumulator starts as the identity" if is_identity(acc0) else
+           "the accumulator starts as %s, not the identity" % show(acc0, maxdepth=3), site)
+    REC = Sym("loop:" + acc_name, None)
+
+    def lin(t):
+        if t == pt:
+            return (0, 1)
+        if isinstance(t, Sym) and t.n == REC.n:
+            return (1, 0)
+        c = gm.unproj(t)
+        if c is None:
+            return None
+        kind = forms.get(c.f[3:], {}).get("kind") if isinstance(c, App) and c.f.startswith("fn:") else None
+        if kind == "double" and len(c.args) == 1:
+            x = lin(c.args[0])
+            return None if x is None else (2 * x[0], 2 * x[1])
+        if kind in ("add-complete", "add-dedicated") and len(c.args) == 2:
+            x, y = lin(c.args[0]), lin(c.args[1])
+            return None if x is None or y is None else (x[0] + y[0], x[1] + y[1])
+        return None
+    # the digit source: most significant first binary digits of n
+    its = []
+    for o in list(rets) + [Outcome_like(p) for p in e2.continues]:
+        for t in [x for (c, _, _) in o.state.pc for x in subterms(c)]:
+            if is_app(t, "iter-elem") and t not in its:
+                its.append(t)
+    # accepted digit sources (most significant first) and the term that is true exactly for a 1 digit
+    okd, is_one, is_zero, how = False, (lambda conds: False), (lambda conds: False), ""
+    if len(its) == 1:
+        it, src = its[0], its[0].args[0]
+        bl = App("bit_length", (n,))
+        if src == mk_app("slice", (mk_app("bin", (n,)), Const(2), Const(None), Const(None))) or src == mk_app("format", (n, Const("b"))):
+            one, zero = mk_app("Eq", (it, Const("1"))), mk_app("Eq", (it, Const("0")))
+            okd, how = True, "bin(n)[2:], the binary digits of n, most significant first"
+            is_one = lambda conds: (one, True) in conds or (zero, False) in conds
+            is_zero = lambda conds: (one, False) in conds or (zero, True) in conds
+        elif src in (mk_app("reversed", (mk_app("range", (bl,)),)),
+                     mk_app("range", (mk_app("Sub", (bl, Const(1))), Const(-1), Const(-1)))):
+            bits = [mk_app("BitAnd", (mk_app("RShift", (n, it)), Const(1))), mk_app("BitAnd", (n, mk_app("LShift", (Const(1), it))))]
+            okd, how = True, "bit positions bit_length(n)-1 .. 0 with the test (n >> i) & 1"
+
+            def _truth(conds, want):
+                for b in bits:
+                    for t, pol in ((b, want), (mk_app("NotEq", (b, Const(0))), want), (mk_app("Eq", (b, Const(0))), not want)):
+                        if (t, pol) in conds:
+                            return True
+                    if b is bits[0] and (mk_app("Eq", (b, Const(1))), want) in conds:
+                        return True
+                return False
+            is_one = lambda conds: _truth(conds, True)
+            is_zero = lambda conds: _truth(conds, False)
+        elif isinstance(src, App) and src.f.startswith("fn:") and src.args == (n,) and not src.kw \
+                and gm.func_by_qual(world, src.f[3:]) is not None:
+            dg = gm.func_by_qual(world, src.f[3:])
+            okd, how = gm.msb_digits_function_ok(world, ev, dg)
+            how = "%s(n): %s" % (dg.node.name, how)
+
+            def _t2(conds, want):
+                return (it, want) in conds or (mk_app("NotEq", (it, Const(0))), want) in conds or (mk_app("Eq", (it, Const(0))), not want) in conds \
+                    or (mk_app("Eq", (it, Const(1))), want) in conds
+            is_one = lambda conds: _t2(conds, True)
+            is_zero = lambda conds: _t2(conds, False)
+    ctx.ob("G6", label + " digits", okd, "the loop runs over %s" % how if okd else
+           "the loop does not run over the binary digits of n (most significant first): %s" % [show(i.args[0], maxdepth=4) for i in its], site)
+    step1 = step0 = False
+    bad = []
+    for p in e2.continues:
+        conds = {(t, pol) for (t, pol, _) in p.st.pc}
+        l = lin(p.val["locals"].get(acc_name))
+        is1, is0 = is_one(conds), is_zero(conds)
+        if is1 and l == (2, 1):
+            step1 = True
+        elif is0 and l == (2, 0):
+            step0 = True
+        else:
+            bad.append("%s*acc + %s*P under %s" % (l[0] if l else "?", l[1] if l else "?", "digit 1" if is1 else "digit 0" if is0 else "an unrecognised condition"))
+    exits = []
+    for o in rets:
+        v = o.value
+        exits.append(is_identity(v) or (isinstance(v, Sym) and v.n == REC.n) or lin(v) == (1, 0))
+    ok = okd and step1 and step0 and not bad and bool(exits) and all(exits)
+    ctx.ob("G6", label, ok,
+           "Horner step: every iteration maps acc = k*P to (2k + digit)*P, the function returns the accumulator => f(P, n) = n*P for n >= 0" if ok else
+           "iterative ladder is not double-and-add over the digits of n (digit-1 step: %s, digit-0 step: %s, other steps: %s, returns the accumulator/identity: %s)"
+           % (step1, step0, bad, exits), site)
+
+
+class Outcome_like(object):
+    def __init__(self, p):
+        self.state = p.st
+
+
 def ladders(ctx, world, ev, m, forms):
     n_l = 0
     for (f, extra) in gm.ladder_instances(world, ev, m):
         name = f.node.name
         n_l += 1
         site = (m.relpath, f.node.lineno, name)
+        if ev.policy.classify(f) == "loop":
+            loop_ladder(ctx, world, ev, m, forms, f, extra, site)
+            continue
         e2 = Ev(world)
         e2.import_all()
         e2.unfold_once.add(f.qual)
@@ -355,7 +475,7 @@ def check(ctx, world):
         "sum is complete_add(self, other) with the identity mapped to the Zero singleton, scalarmult depends on n mod L "
         "and accepts every integer, negate multiplies by a constant = -1 (mod L) or maps (X,Y,Z,T) to (-X,Y,Z,-T). Each "
         "double-and-add ladder is unfolded once and checked against its induction step f(P,n) = 2 f(P,n>>1) + (n&1) P.")
-    ctx.min_obligations = 40
+    ctx.min_obligations = 32
     ev = session.new_ev(world)
     integer(ctx, world, ev)
     ed25519(ctx, world, ev)
